@@ -25,14 +25,22 @@ MCAlertLS == [ S1 |-> [a |-> "x", c |-> "x", i |-> "x"],
                T2 |-> [b |-> "x", c |-> "x", d |-> "y"],
                T3 |-> [b |-> "x", c |-> "y", d |-> "y"] ]
 
-RA(eq) == [src |-> <<Eq("a", "x")>>, tgt |-> <<Eq("b", "x")>>, eq |-> eq]
-RRev   == [src |-> <<Eq("b", "x")>>, tgt |-> <<Eq("a", "x")>>, eq |-> {"c", "d"}]
-RB     == [src |-> <<Re("a", "x|y"), Ne("i", "x")>>, tgt |-> <<Ne("b", "")>>, eq |-> {"d"}]
+RA(eq) == [name |-> "", src |-> <<Eq("a", "x")>>, tgt |-> <<Eq("b", "x")>>, eq |-> eq]
+RRev   == [name |-> "", src |-> <<Eq("b", "x")>>, tgt |-> <<Eq("a", "x")>>, eq |-> {"c", "d"}]
+RB     == [name |-> "", src |-> <<Re("a", "x|y"), Ne("i", "x")>>, tgt |-> <<Ne("b", "")>>, eq |-> {"d"}]
+Named(r, n) == [r EXCEPT !.name = n]
+\* E*, D1: no names; D2: two different names; N1: the rules of D1 under ONE name (two different rules,
+\* the later one is the only one with source b=x); N1r: the same in the other order; N2: two rules that
+\* are identical, name included; N3: named, unnamed, and a third repeating the first one's name
 MCRuleSets == [ E0 |-> <<RA({})>>,
                 E1 |-> <<RA({"c"})>>,
                 E2 |-> <<RA({"c", "d"})>>,
                 D1 |-> <<RA({"c"}), RRev>>,
-                D2 |-> <<RA({"c", "d"}), RB>> ]
+                D2 |-> <<Named(RA({"c", "d"}), "core"), Named(RB, "edge")>>,
+                N1 |-> <<Named(RA({"c"}), "dup"), Named(RRev, "dup")>>,
+                N1r |-> <<Named(RRev, "dup"), Named(RA({"c"}), "dup")>>,
+                N2 |-> <<Named(RA({"c"}), "dup"), Named(RA({"c"}), "dup")>>,
+                N3 |-> <<Named(RA({"c", "d"}), "dup"), RB, Named(RRev, "dup")>> ]
 
 Ends(t) == {e \in {t + o - 1 : o \in EndOffs} : e >= 0}
 
@@ -59,6 +67,7 @@ View == <<now, rs, prov, queue, scache, sindex>>
 InvRefinesExact   == Refines(Queries)                       \* expected to fail while F2 is open
 InvRefinesOrKnown == RefinesOrKnown(Queries, KnownGaps)
 InvSound          == Sound(Queries)
+InvNameBlind      == NameBlind(Queries) /\ AllLoaded
 \* the same as an action property over the Mutes replies
 MuteVerdictExactOrKnown ==
   [][(last'.op = "mutes" /\ last'.quiet) => VerdictOK(AlertLS[last'.ls], KnownGaps)]_vars
